@@ -2,6 +2,7 @@ package main
 
 import (
 	"fmt"
+	"regexp"
 	"go/ast"
 	"go/parser"
 	"go/token"
@@ -189,4 +190,105 @@ func runMutate(repo, verif string, args []string) {
 		}
 	}
 	fmt.Printf("SUMMARY %s shard %d/%d: killed=%d survived=%d invalid=%d\n", file, shardI, shardN, killed, survived, invalid)
+}
+
+// runMutAsm: simdvet mutasm <file.s> [i/n] — line-level mutations of a Go assembly file (delete an instruction, bump the
+// first immediate, bump a DATA/WORD/LONG/BYTE value), all rules run on each variant (development aid).
+func runMutAsm(repo, verif string, args []string) {
+	if len(args) < 1 {
+		fmt.Fprintln(os.Stderr, "usage: simdvet mutasm <file.s> [shard i/n]")
+		os.Exit(2)
+	}
+	file := args[0]
+	shardI, shardN := 0, 1
+	for _, a := range args[1:] {
+		if _, err := fmt.Sscanf(a, "%d/%d", &shardI, &shardN); err != nil {
+			fmt.Fprintln(os.Stderr, "bad argument", a)
+			os.Exit(2)
+		}
+	}
+	path := filepath.Join(repo, file)
+	src, err := os.ReadFile(path)
+	if err != nil {
+		fmt.Fprintln(os.Stderr, err)
+		os.Exit(2)
+	}
+	lines := strings.Split(string(src), "\n")
+	type am struct {
+		line int
+		repl string
+		op   string
+	}
+	var ms []am
+	immRe := regexp.MustCompile(`\$(0x[0-9a-fA-F]+|[0-9]+)`)
+	for i, ln := range lines {
+		t := strings.TrimSpace(ln)
+		if t == "" || strings.HasPrefix(t, "//") || strings.HasPrefix(t, "#") || strings.HasPrefix(t, "TEXT") || strings.HasPrefix(t, "GLOBL") || strings.HasSuffix(t, ":") {
+			continue
+		}
+		cont := strings.HasSuffix(t, "\\")
+		isData := strings.HasPrefix(t, "DATA")
+		first := strings.Fields(t)[0]
+		if first != strings.ToUpper(first) {
+			continue
+		}
+		if !isData && !cont {
+			ms = append(ms, am{i, "", "del"})
+		}
+		if !isData && cont {
+			ms = append(ms, am{i, "\tNOP \\", "del"})
+		}
+		if loc := immRe.FindStringSubmatchIndex(ln); loc != nil {
+			lit := ln[loc[2]:loc[3]]
+			v, err := strconv.ParseUint(lit, 0, 64)
+			if err == nil {
+				nv := v ^ 1
+				var ns string
+				if strings.HasPrefix(lit, "0x") {
+					ns = fmt.Sprintf("0x%0*x", len(lit)-2, nv)
+				} else {
+					ns = fmt.Sprint(nv)
+				}
+				ms = append(ms, am{i, ln[:loc[2]] + ns + ln[loc[3]:], "imm^1"})
+			}
+		}
+	}
+	var names []string
+	for n := range rules {
+		names = append(names, n)
+	}
+	sort.Strings(names)
+	killed, survived := 0, 0
+	for k, m := range ms {
+		if k%shardN != shardI {
+			continue
+		}
+		out := append([]string{}, lines...)
+		out[m.line] = m.repl
+		vc := NewCtx("mutate", "quick", repo, verif)
+		vc.Overlay = map[string][]byte{path: []byte(strings.Join(out, "\n"))}
+		vc.Quiet = true
+		firstRule, firstSite := "", ""
+		for _, n := range names {
+			vc.RunRule(n, rules[n])
+			for _, o := range vc.Obls {
+				if o.Status == StFinding {
+					firstRule, firstSite = o.Rule, o.Site
+					break
+				}
+			}
+			if firstRule != "" {
+				break
+			}
+		}
+		desc := fmt.Sprintf("%s:%d [%s] `%s`", file, m.line+1, m.op, trunc(strings.TrimSpace(lines[m.line]), 70))
+		if firstRule != "" {
+			killed++
+			fmt.Printf("KILLED   %s   by %s %s\n", desc, firstRule, trunc(firstSite, 50))
+		} else {
+			survived++
+			fmt.Printf("SURVIVED %s\n", desc)
+		}
+	}
+	fmt.Printf("SUMMARY %s shard %d/%d: killed=%d survived=%d\n", file, shardI, shardN, killed, survived)
 }
